@@ -226,31 +226,38 @@ def flush (d : D) : D :=
 def mainGuard (left right : List Int) (d : D) : Bool :=
   d.k.i + d.lch.lo < left.length && d.k.j + d.rch.lo < right.length
 
+/-- `if i_off + i < len(left) and i >= l_chunk[1] - l_chunk[0]: l_chunk, left_, i_max, i_off, i = next_…_chunk(…)` -/
+def refillLeft (v : Variant) (left : List Int) (cs : Nat) (d : D) : Except Err D :=
+  if d.lch.lo + d.k.i < left.length && d.k.i >= d.lch.hi - d.lch.lo then do
+    let c ← fetchChunk v.ltrim left d.lch.hi cs
+    pure { d with lch := c, k := { d.k with i := 0 } }
+  else pure d
+
+/-- `if j_off + j < len(right) and j >= r_chunk[1] - r_chunk[0]: …` -/
+def refillRight (v : Variant) (right : List Int) (cs : Nat) (d : D) : Except Err D :=
+  if d.rch.lo + d.k.j < right.length && d.k.j >= d.rch.hi - d.rch.lo then do
+    let c ← fetchChunk v.rtrim right d.rch.hi cs
+    pure { d with rch := c, k := { d.k with j := 0 } }
+  else pure d
+
 def mainBody (v : Variant) (left right : List Int) (cs : Nat) (inv : Int) (d : D) : Except Err D := do
   let k ← runPartial v (mkP left right cs inv d) d.k
-  let d := { d with k := k, calls := d.calls + 1 }
-  -- update the left chunk if necessary
-  let d ← if d.lch.lo + d.k.i < left.length && d.k.i >= d.lch.hi - d.lch.lo then do
-        let c ← fetchChunk v.ltrim left d.lch.hi cs
-        pure { d with lch := c, k := { d.k with i := 0 } }
-      else pure d
-  -- update the right chunk if necessary
-  let d ← if d.rch.lo + d.k.j < right.length && d.k.j >= d.rch.hi - d.rch.lo then do
-        let c ← fetchChunk v.rtrim right d.rch.hi cs
-        pure { d with rch := c, k := { d.k with j := 0 } }
-      else pure d
-  pure (flush d)
+  let d1 ← refillLeft v left cs { d with k := k, calls := d.calls + 1 }
+  let d2 ← refillRight v right cs d1
+  pure (flush d2)
 
 def tailGuard (left : List Int) (d : D) : Bool := d.k.i + d.lch.lo < left.length
 
+/-- `if i >= i_max: l_chunk = next_chunk(l_chunk[1], len(left), chunksize); i_max = …; i_off = l_chunk[0]; i = 0` -/
+def tailAdvance (left : List Int) (cs : Nat) (d : D) : D :=
+  if d.k.i >= d.iMax then
+    let rg := nextChunk d.lch.hi left.length cs
+    { d with lch := ⟨rg.1, rg.2, []⟩, k := { d.k with i := 0 } }
+  else d
+
 def tailBody (left right : List Int) (cs : Nat) (inv : Int) (d : D) : Except Err D := do
   let k ← runRemaining (mkP left right cs inv d) d.k
-  let d := { d with k := k, calls := d.calls + 1 }
-  let d := if d.k.i >= d.iMax then
-        let rg := nextChunk d.lch.hi left.length cs
-        { d with lch := ⟨rg.1, rg.2, []⟩, k := { d.k with i := 0 } }
-      else d
-  pure (flush d)
+  pure (flush (tailAdvance left cs { d with k := k, calls := d.calls + 1 }))
 
 structure Out where
   lout : List Int
